@@ -505,6 +505,14 @@ def r6(ctx, R):
         R.inst("pickled data is read before phase %s" % name)
         if c is not None and (not rp or not q.dominated(ri, rp, c)):
             R.bad(ri, c, "phase %s runs before the pickled data was read" % name)
+    # unpickling resolves modelx objects inside pickled values by name: every object that can be
+    # named - defined cells and the members derived through add_bases - must exist by then
+    for name in ("new_cells", "add_bases"):
+        i, c = phase_of(name)
+        R.inst("phase %s runs before the pickled data is read" % name)
+        if c is not None and rp and not q.dominated(ri, [c], rp[0]):
+            R.bad(ri, rp[0], "pickled data is read before phase %s: a pickled value or input key that holds a derived "
+                             "cells/space cannot be resolved and the read fails" % name, stmt="read_pickledata before " + name)
     order = [("new_cells", "add_bases"), ("set_formula", "add_bases"), ("add_bases", "__setattr__"),
              ("add_bases", "set_ref"), ("new_cells", "load_pickledata"), ("__setattr__", "_set_dynamic_inputs"),
              ("add_bases", "_set_dynamic_inputs"), ("new_cells", "set_doc")]
